@@ -459,7 +459,9 @@ int main(int argc, char** argv) {
   const int nthreads = atoi(argv[2]);
   g_iters = atoi(argv[3]);
   gseed = strtoull(argv[4], 0, 10);
-  spqlios_verif_events_enable((uint64_t)(nthreads + 2) * (uint64_t)(g_iters + NOPS + 4) * 24);
+  // the event hook takes one sequentially consistent fetch-add per event: under ThreadSanitizer that orders the operations of different
+  // threads and hides races between calls that do not overlap in time; the sanitizer run is therefore made without events
+  if (!getenv("CONC_NOEVENTS")) spqlios_verif_events_enable((uint64_t)(nthreads + 2) * (uint64_t)(g_iters + NOPS + 4) * 24);
   spqlios_verif_set_tid(0);
   modBig = new_module_info(NBIG, FFT64);
   modSmall = new_module_info(NSMALL, FFT64);
